@@ -24,6 +24,9 @@ pub struct Motif {
     /// TRANSFAC only: further metadata lines the format allows (DT, CO, BF, BS, BA, CC), written before / after the matrix
     pub pre: Vec<String>,
     pub post: Vec<String>,
+    /// UniPROBE / TRANSFAC (floating-point entries): write every entry in exponent notation (`1.5625e-2`, as printf %g,
+    /// Perl, Python and R print small numbers); the value - hence the expected record - is unchanged
+    pub expo: bool,
 }
 
 fn opt(v: &Option<String>) -> Value {
@@ -115,6 +118,7 @@ pub fn gen_motif<A: Abc>(rng: &mut impl Rng, fmt: &str, idx: usize) -> Motif {
         }
     }
     Motif {
+        expo: (fmt == "uniprobe" || fmt == "transfac") && rng.gen_bool(0.2),
         refs, pre, post,
         id: format!("M{}_{}", idx, word(rng, 4)),
         acc: if fmt == "transfac" && rng.gen_bool(0.8) { Some(format!("AC{:05}", idx)) } else { None },
@@ -123,6 +127,10 @@ pub fn gen_motif<A: Abc>(rng: &mut impl Rng, fmt: &str, idx: usize) -> Motif {
         order,
         vals,
     }
+}
+
+fn written(x: &str, expo: bool) -> String {
+    if expo { format!("{:e}", x.parse::<f32>().unwrap()) } else { x.to_string() }
 }
 
 pub fn render<A: Abc>(fmt: &str, motifs: &[Motif], rng: &mut impl Rng, version_block: bool) -> Vec<u8> {
@@ -175,7 +183,7 @@ pub fn render<A: Abc>(fmt: &str, motifs: &[Motif], rng: &mut impl Rng, version_b
                 s.push('\n');
                 for pos in 0..m {
                     s.push_str(&format!("{:02}", pos + 1));
-                    for j in 0..mo.order.len() { s.push_str(&format!(" {:>6}", mo.vals[j][pos])); }
+                    for j in 0..mo.order.len() { s.push_str(&format!(" {:>6}", written(&mo.vals[j][pos], mo.expo))); }
                     s.push_str("      N\n");
                 }
                 s.push_str("XX\n");
@@ -187,7 +195,7 @@ pub fn render<A: Abc>(fmt: &str, motifs: &[Motif], rng: &mut impl Rng, version_b
                 s.push_str(&format!("{}\n", mo.id));
                 for (j, &r) in mo.order.iter().enumerate() {
                     s.push_str(&format!("{}:", letter(r)));
-                    for x in &mo.vals[j] { s.push_str(&format!("\t{}", x)); }
+                    for x in &mo.vals[j] { s.push_str(&format!("\t{}", written(x, mo.expo))); }
                     s.push('\n');
                 }
                 if rng.gen_bool(0.7) { s.push('\n'); }
@@ -480,6 +488,24 @@ pub fn record_c15(rec: &mut Recorder, seed: u64, thorough: bool) {
             for data in [vec![], b"\n".to_vec(), b" ".to_vec(), b">".to_vec(), b"//\n".to_vec(), b"XX\n".to_vec(), b"\xff\xfe".to_vec()] {
                 let (s, sn) = schedule(&mut r, kind, data.len());
                 c15_case(rec, fmt, "dna", data, s, &sn, "tiny");
+            }
+        }
+        // structurally unusual but well-formed-looking records: matrices with zero positions, rows labelled with the
+        // wildcard symbol, a single row, duplicated rows, headers only
+        let odd: Vec<&[u8]> = match fmt {
+            "jaspar" => vec![b">ID desc\n\n\n\n\n", b">ID\n\n\n\n\n>ID2\n1 2\n3 4\n5 6\n7 8\n", b">ID\n1\n\n\n\n", b">ID\n1 2\n3 4\n5 6\n"],
+            "jaspar16" => vec![b">ID\nA [ ]\nC [ ]\nG [ ]\nT [ ]\n", b">ID\nG []\n", b">ID\nN [ 1 2 ]\n", b">ID\nA [ 1 ]\nA [ 2 ]\n", b">ID\nA [ 1 2 ]\nC [ 1 ]\n",
+                               b">ID\nA [ 1 2 ]\nC [ 3 4 ]\nG [ 5 6 ]\nT [ 7 8 ]\nN [ 0 1 ]\n", b">ID\n"],
+            "transfac" => vec![b"ID  x\nP0      A      C      G      T\nXX\n//\n", b"ID  x\nP0      N\n01      3      N\nXX\n//\n",
+                               b"ID  x\nP0      A      C      G      T      N\n01      1      2      3      4      5      N\nXX\n//\n", b"ID  x\nXX\n//\n", b"//\n//\n"],
+            _ => vec![b"ID\nN:\t1.0\n", b"ID\nN:\t0.5\t0.5\nA:\t0.5\t0.5\n", b"ID\nA:\n", b"ID\nA:\t1.0\nA:\t1.0\n", b"ID\nA:\t0.25\nC:\t0.25\nG:\t0.25\nT:\t0.25\nN:\t0.0\n", b"ID\n\nID2\nA:\t1\n"],
+        };
+        for (i, data) in odd.iter().enumerate() {
+            for abc in ["dna", "protein"] {
+                if fmt == "jaspar" && abc == "protein" { continue; }
+                let data: Vec<u8> = if abc == "protein" { data.iter().map(|&b| if b == b'N' { b'X' } else { b }).collect() } else { data.to_vec() };
+                let (s, sn) = schedule(&mut r, i, data.len());
+                c15_case(rec, fmt, abc, data, s, &sn, "odd_structure");
             }
         }
         // a pool of small valid files to mutate
